@@ -7,14 +7,19 @@ Driver for C13.  Abstract cases (fields):
           → the text `layoutFasta rs ℓ` is parsed by the real code (mode plain: Parse on a reader;
             file: Read on a temp file; gz: gzip with Go's writer, ReadGz)
   build   mode n (name seq)×n
-          → Build (plain) / Write→Read (file) / Write→gzip→ReadGz (gz)
+          → Build (plain) / Write→Read (file) / Write→gzip→ReadGz (gz); the text of Build is HELD while Build is
+            called again on other lists (sequentially and from two goroutines) and parsed only afterwards;
+            the reply says whether the held bytes stayed the same (`stable`)
   stream  src cap seed stall finalNl n (…8 fields…)×n
           → ParseConcurrent / ReadConcurrent / ReadGzConcurrent into a channel of capacity `cap`,
             consumer stalling at random
   raw     text            → Parse on arbitrary text (correspondence only, never judged)
 
+modes: plain | file | gz | gz2 (gzip stream of two members).  A reply `race` / `crash` (the harness process
+died, e.g. stopped by the race detector) is a failure of the property for every case.
+
 junk lists (before/after/between) are encoded as items separated by `\n`: `b` = blank line,
-`c<text>` = comment line `;<text>`.
+`c<text>` = comment line `;<text>`, `s<text>` = the whitespace-only line `<text>`.
 -/
 namespace PolyVerif.Driver.C13
 open PolyVerif PolyVerif.Fasta PolyVerif.Spec.FastaSpec
@@ -23,6 +28,7 @@ def parseJunks (s : String) : List Junk :=
   if s.isEmpty then [] else
     (s.splitOn "\n").map fun it => match it.toList with
       | 'c' :: t => Junk.comment t
+      | 's' :: t => Junk.spaces t
       | _ => Junk.blank
 
 def parseNats (s : String) : List Nat :=
@@ -77,7 +83,12 @@ def sizeClass (rs : List Rec) : String :=
 
 def trivial (rs : List Rec) : Bool := rs.all (fun r => r.seq.isEmpty)
 
+def died (out : List String) : Bool := out.head? == some "race" || out.head? == some "crash"
+
 def judge (f out : List String) : Verdict :=
+  if died out then
+    { corr := false, judge := some false, cls := "harness-died/" ++ out.headD "", detail := short (lineOf out) }
+  else
   match f with
   | "layout" :: mode :: finalNl :: n :: rest =>
     match layoutCase finalNl n rest with
@@ -90,6 +101,8 @@ def judge (f out : List String) : Verdict :=
         cls := (if trivial rs then "triv:" else "") ++ "layout/" ++ mode ++ "/" ++ sizeClass rs ++
                (if ℓ.recs.any (·.crlf) then "/crlf" else "") ++
                (if ℓ.recs.any (fun l => !(l.before ++ l.after ++ l.between).isEmpty) then "/junk" else "") ++
+               (if ℓ.recs.any (fun l => (l.before ++ l.after ++ l.between).any
+                   (fun j => match j with | .spaces _ => true | _ => false)) then "/ws" else "") ++
                (if ℓ.finalNewline then "" else "/nofinalnl"),
         detail := if out == m && (j || !inDom) then "" else
           "model: " ++ lineOf (m.map short) ++ " expected: " ++ lineOf ((recFields rs).map short) }
@@ -98,10 +111,11 @@ def judge (f out : List String) : Verdict :=
     | none => { corr := false, judge := none, cls := "bad-case", detail := "bad case" }
     | some rs =>
       let text := build rs
-      let m := "ok" :: String.ofList text :: recFields (parseNow text)
+      let m := "ok" :: String.ofList text :: "1" :: recFields (parseNow text)
       let inDom := decide (WFRecs rs) && decide (LinesFit maxInt32 text)
+      -- the text must survive later Build calls, and parse back to the records
       let j := match out with
-        | "ok" :: _ :: got => got == recFields rs
+        | "ok" :: _ :: stable :: got => stable == "1" && got == recFields rs
         | _ => false
       { corr := out == m, judge := if inDom then some j else none,
         cls := (if trivial rs then "triv:" else "") ++ "build/" ++ mode ++ "/" ++ sizeClass rs,
